@@ -17,5 +17,6 @@ CONSTANTS
   FailOdds = 4
   EndOdds = 3
   Weights <- WNF
+  Scripts <- NoScripts
 INVARIANT Emit
 CHECK_DEADLOCK FALSE
